@@ -54,6 +54,60 @@ example : connect 1000 1000 5000 32767 4 = ⟨[1000, 2000, 4000, 5000, 5000], [2
   decide
 example : (connect 0 1000 5000 32767 4).waits = [1000, 2000, 4000, 5000] := by decide
 
+/-- **Backoff of the code as it is spelled now** (consumes the regenerated call arguments and `reconnectRetries`):
+under `0 < min ≤ max < 2^62`, a reconnect (`HandleServerShutdown`) whose first `fails < 32767` attempts are refused
+waits `min, 2·min, 4·min, …` capped at `max` – restarting from the minimum – and then succeeds; the first connect
+waits nothing before its first attempt and then the same sequence. -/
+theorem C18_backoff_as_called (minB maxB : Int) (fails : Nat) (h0 : 0 < minB) (h1 : minB ≤ maxB)
+    (hmax : maxB < 2 ^ 62) (hf : fails < Pool.Gen.C18.reconnectRetries) :
+    (∃ r, reconnect minB maxB fails = some r ∧ r.ok = true ∧
+      r.waits = (List.range (fails + 1)).map (fun i => min (minB * 2 ^ i) maxB)) ∧
+    (∃ r, firstConnect minB maxB fails = some r ∧ r.ok = true ∧
+      r.waits = (List.range fails).map (fun i => min (minB * 2 ^ i) maxB)) := by
+  constructor
+  · refine ⟨_, rfl, ?_⟩
+    have := C18_backoff_shape minB minB maxB Pool.Gen.C18.reconnectRetries fails h0 h1 hmax hf
+    simp only [this, and_self]
+  · refine ⟨_, rfl, ?_⟩
+    have := C18_backoff_shape_first minB maxB Pool.Gen.C18.reconnectRetries fails h0 h1 hmax hf
+    exact ⟨this.2, this.1⟩
+
+example : reconnect 1000 8000 5 = some ⟨[1000, 2000, 4000, 8000, 8000, 8000], [2000, 4000, 8000, 8000, 8000], true⟩ := by
+  decide
+
+/-- **The source still has the shape the model mirrors** (regenerated on every run; `decide` fails when the Go code
+changes): hashed concatenation order, SHA-256, the backoff statements of the retry loop, the routing branch of
+`ErrChanSwitch.run` under the mutex, `Divert`/`Restore`, the bookkeeping order of `HandleServerShutdown`
+(all keys deleted before re-subscribing, first error returned) and `connectAndAuthenticate` (map insertion before
+`authenticate`, divert before / restore deferred), the calls of `authenticate`, and `serverHandler`'s reaction. -/
+theorem C18_source_shape :
+    Pool.Gen.C18.hashOrderCommitAccount = [0, 1] ∧ Pool.Gen.C18.hashOrderAuthChallenge = [0, 1] ∧
+    Pool.Gen.C18.hashOrderAuthHash = [0, 1] ∧ Pool.Gen.C18.concatAndHashWrites = ["a", "b"] ∧
+    Pool.Gen.C18.concatAndHashIsSha256 = true ∧
+    Pool.Gen.C18.retryLoopHeader = "i := 0; i < numRetries; i++" ∧ Pool.Gen.C18.backoffInit = "initialBackoff" ∧
+    Pool.Gen.C18.backoffStmts =
+      ["if backoff != 0 { err = c.wait(backoff); if err != nil { return err } }", "backoff *= 2",
+       "if backoff == 0 { backoff = c.cfg.MinBackoff }",
+       "if backoff > c.cfg.MaxBackoff { backoff = c.cfg.MaxBackoff }"] ∧
+    Pool.Gen.C18.switchRun =
+      ["<-s.incomingChan", "s.Lock()", "if s.diverted", "s.tempChan <- msg", "s.mainChan <- msg", "s.Unlock()"] ∧
+    Pool.Gen.C18.switchDivert = "s.Lock(); defer s.Unlock(); s.tempChan = tempChan; s.diverted = true" ∧
+    Pool.Gen.C18.switchRestore = "s.Lock(); defer s.Unlock(); s.tempChan = nil; s.diverted = false" ∧
+    Pool.Gen.C18.handleShutdownShape =
+      ["c.closeStream", "c.connectServerStream", "return err", "c.checkPendingBatch", "return err",
+       "range c.subscribedAccts", "delete", "range acctKeys", "c.StartAccountSubscription", "return err",
+       "return nil"] ∧
+    Pool.Gen.C18.connectAndAuthShape =
+      ["c.connectServerStream", "c.errChanSwitch.Divert", "defer c.errChanSwitch.Restore()",
+       "c.subscribedAccts[acctPubKey] = sub", "sub.authenticate", "c.HandleServerShutdown"] ∧
+    Pool.Gen.C18.authenticateCalls =
+      ["copy(acctPubKey[:], s.acctKey.PubKey.SerializeCompressed())", "account.CommitAccount(acctPubKey, nonce)",
+       "copy(serverChallenge[:], msg.Challenge.Challenge)", "account.AuthHash(s.commitHash, serverChallenge)",
+       "s.signer.SignMessage(ctx, authHash[:], s.acctKey.KeyLocator)"] ∧
+    Pool.Gen.C18.handlerReaction =
+      ["err := <-s.auctioneer.StreamErrChan", "if err != nil && err != auctioneer.ErrServerShutdown",
+       "s.auctioneer.HandleServerShutdown(err)"] := by decide
+
 /-- outside the guard the doubling can wrap: with `max ≥ 2^62` a backoff of `2^62` ns doubles to `-2^63`, which is
 "waited" as zero time – the guard of `C18_backoff_shape` is needed -/
 theorem C18_backoff_guard_needed :
